@@ -406,6 +406,8 @@ class PipeGen:
         if rvar is None:
             return None
         rt = self.t(rvar)
+        if t.n * rt.n > 4000:
+            return None  # keep products small (bounds are stated in the evidence rule)
         how = self.pick(self.cfg.join_hows)
         if self.cfg.exclude_known and how in ("left", "full"):
             # K01 (open finding): computed columns on a null-padded side; excluded by construction
